@@ -25,15 +25,27 @@ import (
 func TestMain(m *testing.M) {
 	kit.Register("faults", faultsOracle)
 	kit.Describe("case = (configuration, optionally plus a user-supplied node renderer for ThematicBreak and CodeSpan that checks every write and returns the writer's error, document (large ones always contain a unit that reaches WriteRune / WriteByte / WriteString paths: numeric references to multi-byte code points, entities, titles, alt texts), API in {Convert, Parse+Render}, writer kind in {plain io.Writer, io.Writer that also has WriteByte/WriteString/WriteRune, caller bufio of 16/4096/65536 bytes}, fault mode in {fail from offset k on, fail always, fail once then succeed}); for outputs <= 600 bytes every offset k in 0..len+1 is enumerated, for large outputs (5-40 KiB) every offset within 3 bytes of a multiple of 4096 plus an arithmetic grid drawn by the generator; oracle: writer reported failure => error non-nil and errors.Is(err, injected), bytes accepted before the first failure are a prefix of the fault-free output, no panic; no failure => nil error and identical bytes; after all fault runs of a case the same instance converts a further document and must agree with a fresh instance; evaluations = fault runs; non-trivial = a case with at least one offset strictly inside the output; distinct by hash of the case",
-		"the injected error is a sentinel compared with errors.Is")
+		"the injected error is compared with errors.Is; its identity is a case dimension: a private sentinel, io.ErrShortWrite (plain and wrapped), io.EOF, io.ErrUnexpectedEOF, io.ErrClosedPipe, an error with Timeout/Temporary methods", "a fault run that does not terminate (watchdog, reproduced in isolation) is a violation: Convert has to return the error")
 	kit.Main(m, "C14")
 }
 
 var errInjected = errors.New("injected writer failure")
 
+// tempErr looks like a net.Error that calls itself temporary: retrying on it must not be attempted blindly.
+type tempErr struct{}
+
+func (tempErr) Error() string   { return "injected temporary failure" }
+func (tempErr) Timeout() bool   { return true }
+func (tempErr) Temporary() bool { return true }
+
+// injectedErrors: the identity of the writer's error must not matter; several of them are values the standard
+// library itself gives a meaning to (bufio returns io.ErrShortWrite on its own account, io.EOF ends readers).
+var injectedErrors = []error{errInjected, io.ErrShortWrite, io.EOF, fmt.Errorf("disk quota: %w", io.ErrShortWrite), io.ErrClosedPipe, tempErr{}, io.ErrUnexpectedEOF}
+
 type faultWriter struct {
-	k        int // total bytes accepted before failing
-	mode     int // 0 fail from k on, 1 fail always, 2 fail once at k then succeed
+	err      error // the error this writer fails with
+	k        int   // total bytes accepted before failing
+	mode     int   // 0 fail from k on, 1 fail always, 2 fail once at k then succeed
 	accepted []byte
 	prefix   int // len(accepted) at the first failure
 	failed   bool
@@ -48,7 +60,7 @@ func (w *faultWriter) Write(p []byte) (int, error) {
 			w.prefix = len(w.accepted)
 		}
 		w.failures++
-		return 0, errInjected
+		return 0, w.err
 	case 2:
 		if !w.failed && len(w.accepted)+len(p) > w.k {
 			n := w.k - len(w.accepted)
@@ -56,14 +68,14 @@ func (w *faultWriter) Write(p []byte) (int, error) {
 			w.failed = true
 			w.prefix = len(w.accepted)
 			w.failures++
-			return n, errInjected
+			return n, w.err
 		}
 		w.accepted = append(w.accepted, p...)
 		return len(p), nil
 	}
 	if w.failed {
 		w.failures++
-		return 0, errInjected
+		return 0, w.err
 	}
 	if len(w.accepted)+len(p) > w.k {
 		n := w.k - len(w.accepted)
@@ -71,7 +83,7 @@ func (w *faultWriter) Write(p []byte) (int, error) {
 		w.failed = true
 		w.prefix = len(w.accepted)
 		w.failures++
-		return n, errInjected
+		return n, w.err
 	}
 	w.accepted = append(w.accepted, p...)
 	return len(p), nil
@@ -206,6 +218,7 @@ func faultsOracle(c *kit.Case) error {
 	}
 	api, wrap, mode := int(c.Ints["api"]), int(c.Ints["wrap"]), int(c.Ints["mode"])
 	strict := c.Ints["strict"] != 0
+	injected := injectedErrors[int(c.Ints["errkind"])%len(injectedErrors)]
 	var ref bytes.Buffer
 	if err := mdFor(cfg, strict).Convert(src, &ref); err != nil {
 		return kit.Violf("convert-error", "fault-free conversion failed: %v", err)
@@ -217,7 +230,7 @@ func faultsOracle(c *kit.Case) error {
 		ks = []int{0}
 	}
 	for _, k := range ks {
-		fw := &faultWriter{k: k, mode: mode}
+		fw := &faultWriter{k: k, mode: mode, err: injected}
 		lastRuns++
 		if k > 0 && k < len(out) {
 			lastInterior++
@@ -235,7 +248,7 @@ func faultsOracle(c *kit.Case) error {
 					err = kit.Violf("error-swallowed", "writer failed at offset %d (mode %d, bufio %d, api %d) but nil was returned; output length %d", k, mode, wrap, api, len(out))
 					return
 				}
-				if !errors.Is(err2, errInjected) {
+				if !errors.Is(err2, injected) {
 					err = kit.Violf("error-replaced", "writer failed at offset %d but the returned error %q does not wrap the writer's error", k, err2)
 					return
 				}
@@ -322,6 +335,9 @@ func TestFaults(t *testing.T) {
 		if rapid.IntRange(0, 3).Draw(t, "strict") == 0 {
 			c.I("strict", 1)
 		}
+		if ek := rapid.SampledFrom([]int{0, 0, 0, 1, 1, 2, 3, 4, 5, 6}).Draw(t, "errkind"); ek != 0 {
+			c.I("errkind", int64(ek))
+		}
 		large := rapid.IntRange(0, 5).Draw(t, "large") == 0 || (stateful && rapid.Bool().Draw(t, "slarge"))
 		if large {
 			// large documents are repetitions of a repository test input (benign
@@ -362,7 +378,7 @@ func TestFaults(t *testing.T) {
 			kit.R.Class("gen:" + class)
 			kit.R.ClassN("fault-runs", int64(lastRuns))
 			kit.R.ClassN("fault-runs-interior-offset", int64(lastInterior))
-			kit.R.Class(fmt.Sprintf("mode:%d", c.Ints["mode"]), fmt.Sprintf("bufio:%d", c.Ints["wrap"]))
+			kit.R.Class(fmt.Sprintf("mode:%d", c.Ints["mode"]), fmt.Sprintf("bufio:%d", c.Ints["wrap"]), fmt.Sprintf("error-identity:%d", c.Ints["errkind"]))
 			if c.Ints["strict"] != 0 {
 				kit.R.Class("error-propagating-custom-renderer")
 			}
